@@ -14,7 +14,7 @@ from cryptography.hazmat.primitives.asymmetric import ec, ed25519, rsa, x25519
 from cryptography.x509.oid import NameOID
 import datetime
 
-from authlib.jose import JsonWebKey, JsonWebSignature, JsonWebToken, KeySet
+from authlib.jose import JsonWebKey, JsonWebSignature, JsonWebToken, KeySet, OctKey
 from authlib.jose.errors import JoseError
 from authlib.jose.rfc7518 import ECKey, OctKey, RSAKey
 from authlib.jose.rfc8037 import OKPKey
@@ -317,6 +317,33 @@ def check_key_ops(ctx):
                 ctx.violation("C02:restriction-ignored:%s" % json.dumps(restr, sort_keys=True), "a key restricted by use / key_ops was used to verify", case)
             except Exception:  # noqa: BLE001
                 ctx.count("restricted-key:refused")
+        # the same restrictions given as import OPTIONS (not inside the JWK), on key objects that have since been asked for other things
+        for restr in ({"use": "enc"}, {"key_ops": ["sign"]}, {"key_ops": []}):
+            for source in ("jwk", "pem"):
+                if source == "pem" and strip:
+                    continue
+                material = dict(base) if source == "jwk" else R.material(vkey, "pem")
+                for touched in ("fresh", "kid", "as_dict", "thumbprint", "in-key-set"):
+                    try:
+                        key = JsonWebKey.import_key(material, dict(restr)) if source == "jwk" or alg != "HS256" else OctKey.import_key(material, dict(restr))
+                    except Exception:  # noqa: BLE001
+                        continue
+                    if touched == "kid":
+                        key.kid
+                    elif touched == "as_dict":
+                        key.as_dict()
+                    elif touched == "thumbprint":
+                        key.thumbprint()
+                    keyarg = KeySet([key]) if touched == "in-key-set" else key
+                    case = {"alg": alg, "key": vkey, "source": source, "restriction_as_option": restr, "touched": touched}
+                    ctx.case(case, ("restricted-option", alg, vkey, source, json.dumps(restr, sort_keys=True), touched), "restricted-key:option")
+                    try:
+                        (JsonWebToken([alg]).decode(jws.serialize_compact({"alg": alg}, b'{"a":1}', R.material(signer, "key")), keyarg)
+                         if touched == "in-key-set" else jws.deserialize_compact(tok, keyarg))
+                        ctx.violation("C02:restriction-ignored:option:%s" % json.dumps(restr, sort_keys=True),
+                                      "a key restricted by use / key_ops through its import options was used to verify", case)
+                    except Exception:  # noqa: BLE001
+                        ctx.count("restricted-key:option:refused")
         # the kid of the JWK is the kid the key set selects by
         for fmt in ("dict", "keyset"):
             ks_d = {"keys": [dict(base, kid="wanted"), dict(R.material("oct2", "jwk"), kid="other")]}
